@@ -24,59 +24,127 @@ func ruleU12(p *Prog) *RuleResult {
 		}
 		return types.Invalid
 	}
+	var small func(v ssa.Value, seen map[ssa.Value]bool) bool
+	small = func(v ssa.Value, seen map[ssa.Value]bool) bool {
+		if seen[v] {
+			return true
+		}
+		seen[v] = true
+		switch x := v.(type) {
+		case *ssa.Const:
+			c, ok := constIntVal(x)
+			return ok && c >= 0 && c < 1<<32
+		case *ssa.Convert:
+			switch kind(x.X.Type()) {
+			case types.Uint32, types.Uint16, types.Uint8, types.Int32, types.Int16, types.Int8:
+				return true
+			}
+			return small(x.X, seen)
+		case *ssa.BinOp:
+			switch x.Op {
+			case token.SHR:
+				if c, ok := constIntVal(x.Y); ok && c >= 32 {
+					return true
+				}
+			case token.AND:
+				if c, ok := constIntVal(x.Y); ok && c >= 0 && c < 1<<32 {
+					return true
+				}
+				if c, ok := constIntVal(x.X); ok && c >= 0 && c < 1<<32 {
+					return true
+				}
+			}
+		case *ssa.Phi:
+			for _, e := range x.Edges {
+				if bo, ok := e.(*ssa.BinOp); ok && bo.Op == token.ADD && bo.X == ssa.Value(x) {
+					continue // the loop step: bounded by the loop test, checked at the cut
+				}
+				if !small(e, seen) {
+					return false
+				}
+			}
+			return true
+		case *ssa.Call:
+			if g := x.Call.StaticCallee(); g != nil && g.Signature.Results().Len() == 1 {
+				switch kind(g.Signature.Results().At(0).Type()) {
+				case types.Uint32, types.Uint16:
+					return true
+				}
+			}
+		}
+		return false
+	}
+	// fits: v is known to fit 32 bits where block b is entered
+	var fits func(f *ssa.Function, v ssa.Value, b *ssa.BasicBlock, depth int) (bool, string)
+	fits = func(f *ssa.Function, v ssa.Value, b *ssa.BasicBlock, depth int) (bool, string) {
+		stepped := false
+		if ph, ok := v.(*ssa.Phi); ok {
+			for _, e := range ph.Edges {
+				if bo, ok := e.(*ssa.BinOp); ok && bo.Op == token.ADD && bo.X == ssa.Value(ph) {
+					stepped = true
+				}
+			}
+		}
+		if small(v, map[ssa.Value]bool{}) && !stepped {
+			return true, "a widened 32-bit value, or shifted / masked down"
+		}
+		// an upper-bound comparison dominating the place
+		for _, b2 := range f.Blocks {
+			iff, ok := b2.Instrs[len(b2.Instrs)-1].(*ssa.If)
+			if !ok {
+				continue
+			}
+			for _, src := range sliceBack(iff.Cond, func(x ssa.Value) bool {
+				bo, ok := x.(*ssa.BinOp)
+				if !ok {
+					return false
+				}
+				switch bo.Op {
+				case token.LSS, token.LEQ, token.GTR, token.GEQ:
+					return bo.X == v || bo.Y == v
+				}
+				return false
+			}) {
+				bo := src.(*ssa.BinOp)
+				upperOnTrue := (bo.X == v && (bo.Op == token.LSS || bo.Op == token.LEQ)) || (bo.Y == v && (bo.Op == token.GTR || bo.Op == token.GEQ))
+				s := b2.Succs[0]
+				if !upperOnTrue {
+					s = b2.Succs[1]
+				}
+				if ssa.Value(bo) != iff.Cond && !upperOnTrue {
+					continue // part of a && / || chain: only the true side of a conjunction keeps the bound
+				}
+				if len(s.Preds) == 1 && (s == b || s.Dominates(b)) {
+					return true, "bounded above by the comparison at " + p.ipos(iff)
+				}
+			}
+		}
+		// a result of a helper of this package that fits on each of the helper's returns
+		if ex, ok := v.(*ssa.Extract); ok && depth < 2 {
+			if c, ok := ex.Tuple.(*ssa.Call); ok {
+				if h := c.Call.StaticCallee(); h != nil && h.Blocks != nil && inRepo(h) {
+					all, n := true, 0
+					for _, hb := range h.Blocks {
+						r, ok := hb.Instrs[len(hb.Instrs)-1].(*ssa.Return)
+						if !ok || ex.Index >= len(r.Results) {
+							continue
+						}
+						n++
+						if ok2, _ := fits(h, r.Results[ex.Index], hb, depth+1); !ok2 {
+							all = false
+						}
+					}
+					if all && n > 0 {
+						return true, fmt.Sprintf("result %d of %s, which fits 32 bits on each of its %d returns", ex.Index, fname(h), n)
+					}
+				}
+			}
+		}
+		return false, ""
+	}
 	for _, f := range fns {
 		if f.Blocks == nil || fnPkgPath(f) != pkgPathOf("roaring64") || strings.Contains(p.pos(f.Pos()), "bsi") {
 			continue
-		}
-		var small func(v ssa.Value, seen map[ssa.Value]bool) bool
-		small = func(v ssa.Value, seen map[ssa.Value]bool) bool {
-			if seen[v] {
-				return true
-			}
-			seen[v] = true
-			switch x := v.(type) {
-			case *ssa.Const:
-				c, ok := constIntVal(x)
-				return ok && c >= 0 && c < 1<<32
-			case *ssa.Convert:
-				switch kind(x.X.Type()) {
-				case types.Uint32, types.Uint16, types.Uint8, types.Int32, types.Int16, types.Int8:
-					return true
-				}
-				return small(x.X, seen)
-			case *ssa.BinOp:
-				switch x.Op {
-				case token.SHR:
-					if c, ok := constIntVal(x.Y); ok && c >= 32 {
-						return true
-					}
-				case token.AND:
-					if c, ok := constIntVal(x.Y); ok && c >= 0 && c < 1<<32 {
-						return true
-					}
-					if c, ok := constIntVal(x.X); ok && c >= 0 && c < 1<<32 {
-						return true
-					}
-				}
-			case *ssa.Phi:
-				for _, e := range x.Edges {
-					if bo, ok := e.(*ssa.BinOp); ok && bo.Op == token.ADD && bo.X == ssa.Value(x) {
-						continue // the loop step: bounded by the loop test, checked at the cut
-					}
-					if !small(e, seen) {
-						return false
-					}
-				}
-				return true
-			case *ssa.Call:
-				if g := x.Call.StaticCallee(); g != nil && g.Signature.Results().Len() == 1 {
-					switch kind(g.Signature.Results().At(0).Type()) {
-					case types.Uint32, types.Uint16:
-						return true
-					}
-				}
-			}
-			return false
 		}
 		n := 0
 		for _, b := range f.Blocks {
@@ -87,56 +155,8 @@ func ruleU12(p *Prog) *RuleResult {
 				}
 				n++
 				cn := fmt.Sprintf("%s|%s cut to 32 bits#%d", fname(f), valueLabel(cv.X), n)
-				// stepped loop variable or plain small value
-				stepped := false
-				if ph, ok := cv.X.(*ssa.Phi); ok {
-					for _, e := range ph.Edges {
-						if bo, ok := e.(*ssa.BinOp); ok && bo.Op == token.ADD && bo.X == ssa.Value(ph) {
-							stepped = true
-						}
-					}
-				}
-				if small(cv.X, map[ssa.Value]bool{}) && !stepped {
-					res.ok(cn, p.ipos(cv), "a widened 32-bit value, or shifted / masked down")
-					continue
-				}
-				// an upper-bound comparison dominating the cut
-				bound := ""
-				for _, b2 := range f.Blocks {
-					iff, ok := b2.Instrs[len(b2.Instrs)-1].(*ssa.If)
-					if !ok {
-						continue
-					}
-					for _, src := range sliceBack(iff.Cond, func(v ssa.Value) bool {
-						bo, ok := v.(*ssa.BinOp)
-						if !ok {
-							return false
-						}
-						switch bo.Op {
-						case token.LSS, token.LEQ, token.GTR, token.GEQ:
-							return bo.X == cv.X || bo.Y == cv.X
-						}
-						return false
-					}) {
-						bo := src.(*ssa.BinOp)
-						upperOnTrue := (bo.X == cv.X && (bo.Op == token.LSS || bo.Op == token.LEQ)) || (bo.Y == cv.X && (bo.Op == token.GTR || bo.Op == token.GEQ))
-						s := b2.Succs[0]
-						if !upperOnTrue {
-							s = b2.Succs[1]
-						}
-						if ssa.Value(bo) != iff.Cond {
-							// part of a && / || chain: only the true side of a conjunction keeps the bound
-							if !upperOnTrue {
-								continue
-							}
-						}
-						if len(s.Preds) == 1 && (s == b || s.Dominates(b)) {
-							bound = p.ipos(iff)
-						}
-					}
-				}
-				if bound != "" {
-					res.ok(cn, p.ipos(cv), "bounded above by the comparison at "+bound)
+				if ok, why := fits(f, cv.X, b, 0); ok {
+					res.ok(cn, p.ipos(cv), why)
 				} else {
 					res.bad(cn, p.ipos(cv), "a 64-bit quantity is cut to 32 bits without being a widened 32-bit value and without an upper-bound comparison on the way")
 				}
